@@ -248,7 +248,7 @@ Lemma nf_err {A} : nofault (@RErr A).  Proof. discriminate. Qed.
 Lemma nf_notimpl {A} : nofault (@RNotImpl A).  Proof. discriminate. Qed.
 Lemma nf_getop n : nofault (getop n).
 Proof. unfold getop. destruct (get_operand n); discriminate. Qed.
-Lemma nf_literal len w1 o sz : nofault (literal len w1 o sz).
+Lemma nf_literal len w1 o sz lsz : nofault (literal len w1 o sz lsz).
 Proof. unfold literal. destruct (is_lit o); [destruct (len <? 8)|]; discriminate. Qed.
 Lemma nf_read_hi len w1 : 8 <= len -> nofault (read_hi len w1).
 Proof. intros H. unfold read_hi. destruct (N.ltb_spec len 8); [lia|discriminate]. Qed.
@@ -265,7 +265,7 @@ Ltac nf_step :=
   | |- nofault RErr => apply nf_err
   | |- nofault RNotImpl => apply nf_notimpl
   | |- nofault (getop _) => apply nf_getop
-  | |- nofault (literal _ _ _ _) => apply nf_literal
+  | |- nofault (literal _ _ _ _ _) => apply nf_literal
   end.
 Ltac nf := repeat nf_step; auto with nf.
 
@@ -315,7 +315,7 @@ Proof.
   destruct (N.ltb_spec len (f_size f)); [apply nf_err|].
   destruct (format_size_facts f Hf) as (_ & H8 & _).
   assert (H8' : needs_hi (f_type f) = true -> 8 <= len) by (intros E; rewrite <- (H8 E); auto).
-  destruct (f_type f); try discriminate L;
+  unfold dispatch. destruct (f_type f); try discriminate L;
     lazymatch goal with
     | |- nofault (decode_sop2 _ _ _ _) => apply nf_sop2
     | |- nofault (decode_vop1 _ _ _ _) => apply nf_vop1
